@@ -9,3 +9,38 @@ Fixpoint loop_fuel {S : Type} (fuel : nat) (cond : S -> bool) (body : S -> S) (s
   end.
 
 Definition unwrap_num (r : result N) : N := match r with Ok v => v | _ => 0 end.
+
+(* ---- runtime of the translated loaders (Generated.v, section 2c) ---- *)
+From Coq Require Import ZArith.
+From Ice Require Import Varint.
+
+(* `for cond { body }` whose body can fail; the fuel is a parameter of the
+   translated function.  OutOfFuel only when the condition still holds. *)
+Fixpoint loop_fuel_r {S : Type} (fuel : nat) (cond : S -> bool) (body : S -> result S) (s : S)
+  : result S :=
+  if cond s then
+    match fuel with
+    | O => OutOfFuel
+    | Datatypes.S f => do s' <- body s; loop_fuel_r f cond body s'
+    end
+  else Ok s.
+
+(* binary.BigEndian.Uint32 / Uint64: `_ = b[w-1]` panics on a short slice, the
+   first w bytes are the value *)
+Definition go_be_uint (w : nat) (b : bytes) : result N :=
+  if Nat.ltb (length b) w then Panic else Ok (be_value (firstn w b) 0).
+
+(* s[i] = v on a []uint64 with an int index *)
+Fixpoint list_set {A} (l : list A) (i : nat) (v : A) : list A :=
+  match l, i with
+  | [], _ => []
+  | _ :: l', O => v :: l'
+  | x :: l', Datatypes.S i' => x :: list_set l' i' v
+  end.
+Definition go_slice_set (l : list N) (i : Z) (v : N) : result (list N) :=
+  if (i <? 0)%Z || (Z.of_nat (length l) <=? i)%Z then Panic
+  else Ok (list_set l (Z.to_nat i) v).
+
+(* make([]uint64, n) with an int length: a negative length panics *)
+Definition go_make_int (n : Z) : result (list N) :=
+  if (n <? 0)%Z then Panic else Ok (repeat 0 (Z.to_nat n)).
